@@ -66,7 +66,7 @@ def tr_expr(n, cx: Ctx):
                 k = cx.params[n.attr]
                 return ("param", {"R": "R", "V3": "V", "N": "N"}[k], n.attr)
             raise TranslationError(f"self.{n.attr} is not a declared parameter of {cx.cls}")
-        if isinstance(n.value, ast.Name) and n.value.id == "np" and n.attr == "pi":
+        if isinstance(n.value, ast.Name) and n.value.id in ("np", "math", "cmath") and n.attr == "pi":
             return ("pi", "R")
         if n.attr == "T":
             inner = tr_expr(n.value, cx)
@@ -126,10 +126,27 @@ def tr_expr(n, cx: Ctx):
             if ty(a) != "V":
                 raise TranslationError("norm of a non-vector")
             return ("norm", "R", a)
-        if isinstance(f, ast.Attribute) and f.attr == "conj" and not n.args:
+        if isinstance(f, ast.Attribute) and f.attr in ("conj", "conjugate") and not n.args and not n.keywords:
             a = tr_expr(f.value, cx)
             return ("conj", ty(a), a)
-        if fn == "np.identity" and len(n.args) == 1:
+        if fn in ("np.conj", "np.conjugate") and len(n.args) == 1 and not n.keywords:
+            a = tr_expr(n.args[0], cx)
+            return ("conj", ty(a), a)
+        if (isinstance(f, ast.Attribute) and f.attr == "transpose" and not n.args and not n.keywords) or \
+                (fn == "np.transpose" and len(n.args) == 1 and not n.keywords):
+            inner = tr_expr(f.value if fn != "np.transpose" else n.args[0], cx)
+            if not is_mat(ty(inner)):
+                raise TranslationError("transpose of a non-matrix")
+            return ("transpose", ty(inner), inner)
+        if fn in ("math.cos", "math.sin", "math.sqrt") and len(n.args) == 1 and not n.keywords:
+            a = tr_expr(n.args[0], cx)
+            if ty(a) != "R":
+                raise TranslationError(f"{fn} of a non-real")
+            return (fn[5:], "R", a)
+        if fn in ("cmath.exp", "math.exp") and len(n.args) == 1 and not n.keywords:
+            a = tr_expr(n.args[0], cx)
+            return ("exp", ty(a) if ty(a) in ("R", "C") else "C", a)
+        if fn in ("np.identity", "np.eye") and len(n.args) == 1 and all(k.arg == "dtype" for k in n.keywords):
             d = n.args[0]
             if isinstance(d, ast.Constant) and isinstance(d.value, int):
                 return ("one", f"M{d.value}")
@@ -137,7 +154,13 @@ def tr_expr(n, cx: Ctx):
             if dd[0] == "pow2" and dd[2][0] == "param":
                 return ("one", "MP" + dd[2][2])
             raise TranslationError("np.identity dimension")
-        if fn == "np.array" and len(n.args) == 1 and isinstance(n.args[0], ast.List):
+        if fn == "np.diag" and len(n.args) == 1 and isinstance(n.args[0], (ast.List, ast.Tuple)) and not n.keywords:
+            ds = [tr_expr(e, cx) for e in n.args[0].elts]
+            if not ds or any(ty(e) not in ("R", "C") for e in ds):
+                raise TranslationError("np.diag needs a non-empty list of scalars")
+            zero = ("num", "R", Fraction(0))
+            return ("mat", f"M{len(ds)}", [[ds[i] if i == j else zero for j in range(len(ds))] for i in range(len(ds))])
+        if fn == "np.array" and len(n.args) == 1 and isinstance(n.args[0], ast.List) and all(k.arg == "dtype" for k in n.keywords):
             rows = n.args[0].elts
             if not rows or not all(isinstance(r, ast.List) and len(r.elts) == len(rows) for r in rows):
                 raise TranslationError("np.array must be a square nested list literal")
@@ -174,6 +197,31 @@ def tr_body(fn, cx: Ctx):
     return {"lets": lets, "guard": guard, "ret": ret}
 
 
+def _is_adjoint_of_self(n):
+    """`self.as_matrix()` wrapped in exactly one conjugation and one transposition, in either order and any spelling"""
+    conj = tr = 0
+    while True:
+        if isinstance(n, ast.Attribute) and n.attr == "T":
+            tr += 1
+            n = n.value
+        elif isinstance(n, ast.Call) and isinstance(n.func, ast.Attribute) and n.func.attr in ("conj", "conjugate", "transpose") \
+                and not n.args and not n.keywords and not (isinstance(n.func.value, ast.Name) and n.func.value.id == "np"):
+            if n.func.attr == "transpose":
+                tr += 1
+            else:
+                conj += 1
+            n = n.func.value
+        elif isinstance(n, ast.Call) and ast.unparse(n.func) in ("np.conj", "np.conjugate", "np.transpose") and len(n.args) == 1 and not n.keywords:
+            if ast.unparse(n.func) == "np.transpose":
+                tr += 1
+            else:
+                conj += 1
+            n = n.args[0]
+        else:
+            break
+    return conj == 1 and tr == 1 and ast.unparse(n) == "self.as_matrix()"
+
+
 def tr_inverse(cls, fn, params):
     """-> ("self",) | ("class", K2, [arg IR ...]) | ("adjoint-general",)"""
     body = body_nodoc(fn)
@@ -184,7 +232,7 @@ def tr_inverse(cls, fn, params):
             raise TranslationError(f"{cls}.inverse: unsupported constructor call")
         k2 = call.func.id
         if k2 == "GeneralGate":
-            if len(call.args) == 2 and ast.unparse(call.args[0]) == "self.as_matrix().conj().T":
+            if len(call.args) == 2 and _is_adjoint_of_self(call.args[0]):
                 return ("adjoint-general",)
             raise TranslationError(f"{cls}.inverse: GeneralGate(...) form not recognised")
         if k2 not in LEAVES:
@@ -502,7 +550,7 @@ def print_lean(ir):
     L = ["-- GENERATED by harness/translators/gates.py from /repo/src/qib/operator/gates.py -- do not edit",
          "import Mathlib.LinearAlgebra.Matrix.Notation", "import Mathlib.Data.Complex.Basic", "import Mathlib.Analysis.SpecialFunctions.Trigonometric.Basic",
          "import Mathlib.Analysis.SpecialFunctions.Sqrt", "import Mathlib.Analysis.SpecialFunctions.Exp",
-         "import QibGen.GateFlags", "open Matrix", "namespace QibGen", ""]
+         "import QibGen.GateFlags", "open Matrix", "namespace QibSrc", ""]
     F = ["-- GENERATED by harness/translators/gates.py from /repo/src/qib/operator/gates.py -- do not edit",
          "/-! `is_hermitian` answers and `num_wires` of the gate classes (core Lean only) -/", "namespace QibGen", ""]
     for cls, d in ir.items():
@@ -582,7 +630,7 @@ def print_lean(ir):
     F.append("end QibGen")
     FLAGS_TEXT.clear(); FLAGS_TEXT.append("\n".join(F) + "\n")
     L.append("")
-    L.append("end QibGen")
+    L.append("end QibSrc")
     return "\n".join(L) + "\n"
 
 
